@@ -221,3 +221,15 @@ pub fn below(r: &mut Rng, m: &[u64]) -> Vec<u64> {
         }
     }
 }
+
+/// floor(a / d) for a one-word divisor (schoolbook, input construction only)
+pub fn vdivsmall(a: &[u64], d: u64) -> Vec<u64> {
+    let mut q = vec![0u64; a.len()];
+    let mut rem: u128 = 0;
+    for i in (0..a.len()).rev() {
+        let cur = (rem << 64) | a[i] as u128;
+        q[i] = (cur / d as u128) as u64;
+        rem = cur % d as u128;
+    }
+    trim(q)
+}
